@@ -567,7 +567,38 @@ func TestVerifC17(t *testing.T) {
 		srC.emitDec(w, b)
 	}
 
-	// =========================================================== streams of timestamps / endpoint IDs
+	// =========================================================== streams of timestamps and of administrative records
+	for i := 0; i < 40*scale; i++ {
+		n := 1 + r.intn(20)
+		var descs []string
+		var buf bytes.Buffer
+		for j := 0; j < n; j++ {
+			ts := NewCreationTimestamp(DtnTime(r.u64()), r.u64())
+			descs = append(descs, fmt.Sprintf("%d|%d", ts[0], ts[1]))
+			_ = cboring.Marshal(&ts, &buf)
+		}
+		c17Stream(w, "ts", descs, buf.Bytes(), tsC.dec)
+	}
+	for i := 0; i < 40*scale; i++ {
+		n := 1 + r.intn(20)
+		var descs []string
+		var buf bytes.Buffer
+		for j := 0; j < n; j++ {
+			b := randBid()
+			if b.SourceNode.CheckValid() != nil {
+				b.SourceNode = DtnNone()
+			}
+			sr := &StatusReport{StatusInformation: make([]BundleStatusItem, r.intn(6)), ReportReason: StatusReportReason(reasons[r.intn(len(reasons))]), RefBundle: b}
+			for k := range sr.StatusInformation {
+				sr.StatusInformation[k] = []BundleStatusItem{NewBundleStatusItem(false), NewBundleStatusItem(true), NewTimeReportingBundleStatusItem(DtnTime(r.u64()))}[r.intn(3)]
+			}
+			descs = append(descs, c17SrDesc(sr))
+			_ = GetAdministrativeRecordManager().WriteAdministrativeRecord(sr, &buf)
+		}
+		c17Stream(w, "ar", descs, buf.Bytes(), arC.dec)
+	}
+
+	// =========================================================== streams of endpoint IDs
 	for i := 0; i < 60*scale; i++ {
 		n := 1 + r.intn(20)
 		var descs, got []string
@@ -592,6 +623,21 @@ func TestVerifC17(t *testing.T) {
 		}
 		fmt.Fprintf(w, "eidcbor stream %s %s %s\n", strings.Join(descs, "~"), c17Hex(all), strings.Join(got, "~"))
 	}
+}
+
+// c17Stream writes n values into one buffer and reads them back one after the other from one reader.
+func c17Stream(w io.Writer, name string, descs []string, all []byte, readOne func(rd io.Reader) (string, error)) {
+	rd := bytes.NewReader(all)
+	var got []string
+	for rd.Len() > 0 {
+		d, err := readOne(rd)
+		if err != nil {
+			got = append(got, "!"+c17ErrClass(err)[4:])
+			break
+		}
+		got = append(got, fmt.Sprintf("%s@%d", d, len(all)-rd.Len()))
+	}
+	fmt.Fprintf(w, "%s stream %s %s %s\n", name, strings.Join(descs, "~"), c17Hex(all), strings.Join(got, "~"))
 }
 
 func sortStrings(s []string) {
